@@ -345,6 +345,10 @@ func oracleC10(p *Plan, r *c10Result) []Violation {
 			continue
 		}
 		served = append(served, q.T)
+		if r.rate == 0 {
+			add("rate_exceeded", "zero_rate", i, fmt.Sprintf("request %d was processed (status %d) although the configured rate is 0 (no requests are to be served)", i, q.Status))
+			continue
+		}
 		// any token bucket of rate r admits at most ceil(r) + r*T requests in a window of length T
 		for j := 0; j < len(served)-1; j++ {
 			win := q.T.Sub(served[j]).Seconds()
@@ -419,7 +423,7 @@ func init() {
 			p := &Plan{Scenario: "bastion"}
 			p.Cfg = genConfig(r, pf)
 			p.Cfg.WitKeys = Pick(r, []string{"ed:0", "cosig:0"}, []string{"cosig:0"}, []string{"ed:0"}, []string{"ed:0", "cosig:0"})
-			p.Cfg.Extra = map[string]int64{"rate": int64(Pick(r, 1, 2, 3, 5, 10, 50, 1000, 1000)), "unlisted": int64(r.IntN(2))}
+			p.Cfg.Extra = map[string]int64{"rate": int64(Pick(r, 0, 1, 2, 3, 5, 10, 50, 1000, 1000)), "unlisted": int64(r.IntN(2))}
 			ops := genHistory(r, pf, &p.Cfg)
 			for _, o := range ops {
 				if o.K != "update" {
